@@ -250,12 +250,14 @@ def decompose_and_order(graph, component, component_name, bo_start=0):
             scaffold_graph.add_edge(node1, "+", node2, "+", 0)
 
         else:
-            bubble_index = len(bubbles)
+            # the collapsed bubble gets a name no segment can have (segment names contain no blanks),
+            # a bare number would collide with a scaffold segment called "0", "1", ...
+            bubble_name = "bubble %d" % len(bubbles)
             bubbles.append(bc_inside_nodes)
-            scaffold_graph.add_node(str(bubble_index))
-            scaffold_node_types[str(bubble_index)] = "b"
+            scaffold_graph.add_node(bubble_name)
+            scaffold_node_types[bubble_name] = "b"
             for end_node in bc_end_nodes:
-                scaffold_graph.add_edge(str(bubble_index), "+", end_node, "+", 0)
+                scaffold_graph.add_edge(bubble_name, "+", end_node, "+", 0)
 
     logger.info(f"  Bubbles: {len(bubbles)}")
     logger.info(f"  Scaffold graph: {len(scaffold_graph)} nodes")
@@ -302,7 +304,7 @@ def decompose_and_order(graph, component, component_name, bo_start=0):
         else:
             on_ref = [
                 int(new_graph[n].tags["SO"][1])
-                for n in bubbles[int(node_name)]
+                for n in bubbles[int(node_name.split(" ")[1])]
                 if new_graph[n].tags.get("SN") == ref_sn
             ]
             if on_ref:
@@ -321,7 +323,7 @@ def decompose_and_order(graph, component, component_name, bo_start=0):
         if node_type == "s":
             node_order[node] = (bo, 0)
         elif node_type == "b":
-            for i, n in enumerate(sorted(bubbles[int(node)])):
+            for i, n in enumerate(sorted(bubbles[int(node.split(" ")[1])])):
                 node_order[n] = (bo, i + 1)
         else:
             assert False
